@@ -25,6 +25,7 @@
                                 a connection, the failed send's frame is on no other connection.
 -/
 import Golib.Tcp.Recover
+import Golib.Tcp.Exec
 
 namespace Tcp
 
@@ -37,6 +38,12 @@ theorem setErr_err_get (s : St) (w w' : Nat) (h : s.err.get w' = true) : (s.setE
   split
   · rfl
   · exact h
+
+theorem push_sent_self (s : St) (w k : Nat) : (s.push w k).sent w = s.sent w ++ (s.buf.get w).take k := by
+  simp [St.push, St.sent]
+
+theorem push_sent_ne (s : St) (w k w' : Nat) (h : w ≠ w') : (s.push w k).sent w' = s.sent w' := by
+  simp [St.push, St.sent, AMap.get_set, h]
 
 theorem push_sentRev_ne (s : St) (w k w' : Nat) (h : w ≠ w') : (s.push w k).sentRev.get w' = s.sentRev.get w' := by
   simp [St.push, AMap.get_set, h]
@@ -92,7 +99,7 @@ theorem step_dead {s s' : St} {a : Act} (h : step cfg bytesOf s a = some s') (w 
       by_cases e : w0 = w
       · have hk0 : k = 0 := hk (by rw [e]; exact hd)
         subst hk0; subst e
-        simp [St.push, AMap.get_set]
+        simp [St.push]
       · exact push_sentRev_ne s w0 k w e
     · show (((s.push w0 k).setErr w0).finish t sid false).log.get w = _
       rw [finish_log]; rfl
@@ -164,7 +171,7 @@ theorem one_connection {s : St} (ho : OrderInv s) (c c' sid : Nat) (h1 : sid ∈
         · rcases List.mem_cons.mp hb with e | hb
           · omega
           · exact Nat.lt_irrefl _ (hp.1 b hb sid ha' sid hb')
-        · rcases List.mem_cons.mp hb with rfl | hb
+        · rcases List.mem_cons.mp hb with e | hb
           · have := hs.1 a ha; omega
           · exact ih hs.2 hp.2 ha hb
     exact this _ hrange hp (List.mem_range.mpr (by omega)) (List.mem_range.mpr hb)
@@ -217,7 +224,9 @@ theorem flushErr_ok {s : St} {t sid w0 w k : Nat} (hp : s.pc t = .wrote sid w0) 
     (hk : k < (s.buf.get w).length) (he : s.err.get w = false) :
     step cfg bytesOf s (.flushErr t k) = some ((((s.push w k).setErr w).finish t sid false).procRel cfg.procLocked t) := by
   simp only [step, hp, hw]
-  rw [if_pos ⟨Nat.le_of_lt hk, fun h => by rw [he] at h; cases h, fun _ => hk⟩]
+  have hg : k ≤ (s.buf.get w).length ∧ (s.err.get w = true → k = 0) ∧ (s.err.get w = false → k < (s.buf.get w).length) :=
+    ⟨Nat.le_of_lt hk, (fun h => by rw [he] at h; cases h), (fun _ => hk)⟩
+  rw [if_pos hg]
 
 /-- actions of a `send()` whose `wr.Write` fails after `k` more bytes reached the kernel -/
 def writeFaultTail (t len k : Nat) : List Act :=
@@ -266,22 +275,21 @@ theorem write_fault_at {s : St} {t sid w k : Nat} (ht : t ≠ 0) (hp : s.pc t = 
   have p4 : s4.pc t = .done sid false := by simp [s4, ht]
   let s5 : St := { s4 with lock := none, results := (sid, false) :: s4.results }.setPc t .idle
   have e5 : step cfg bytesOf s4 (.unlock t) = some s5 := unlock_ok cfg bytesOf p4 ht
-  refine ⟨s5, ?_, ?_, ?_, rfl, rfl, ?_, rfl, by simp [s5], rfl, ?_⟩
+  refine ⟨s5, ?_, ?_, ?_, rfl, rfl, ?_, rfl, by simp [s5], ?n, ?_⟩
+  case n => simp only [s5, s4, s3, s2, s1, St.setPc, St.setErr, St.push]
   · simp only [writeFaultTail]
     rw [run_cons_of_step cfg bytesOf _ e1, run_cons_of_step cfg bytesOf _ e2, run_cons_of_step cfg bytesOf _ e3,
       run_cons_of_step cfg bytesOf _ e4, run_cons_of_step cfg bytesOf _ e5]
     rfl
-  · show ((s2.push w k).sentRev.get w).reverse = _
-    simp only [St.push, AMap.get_set_self, b2, St.sent, List.reverse_append, List.reverse_reverse]
-    rfl
+  · show (s2.push w k).sent w = _
+    rw [push_sent_self, b2]; rfl
   · show ((s2.push w k).err.set w true).get w = true
     rw [AMap.get_set_self]
   · show (s.log.set w (s.log.get w ++ [sid])).get w = _
     rw [AMap.get_set_self]
   · intro w' hne'
-    show ((s2.push w k).sentRev.get w').reverse = _
-    rw [push_sentRev_ne s2 w k w' hne']
-    rfl
+    show (s2.push w k).sent w' = _
+    rw [push_sent_ne s2 w k w' hne']; rfl
 
 /-- **A flush error at any byte offset.**  The frame of `sid` is copied whole into the clean current
     writer `w`, then `Flush()` fails after `k` bytes, for any `k` short of everything.  Connection `w`
@@ -324,18 +332,15 @@ theorem flush_fault_at {s : St} {t sid w k : Nat} (ht : t ≠ 0) (hp : s.pc t = 
     rw [finish_pc, if_pos rfl, if_neg ht]
   let s5 : St := { s4 with lock := none, results := (sid, false) :: s4.results }.setPc t .idle
   have e5 : step cfg bytesOf s4 (.unlock t) = some s5 := unlock_ok cfg bytesOf p4 ht
-  have fsr : ∀ s0 : St, (s0.finish t sid false).sentRev = s0.sentRev := by
-    intro s0; unfold St.finish; simp [ht, St.setPc]
   refine ⟨s5, ?_, ?_, ?_, ?_, ?_, rfl, by simp [s5], ?_, ?_⟩
   · simp only [flushFaultTail]
     rw [run_cons_of_step cfg bytesOf _ e1, run_cons_of_step cfg bytesOf _ e2, run_cons_of_step cfg bytesOf _ e3,
       run_cons_of_step cfg bytesOf _ e4, run_cons_of_step cfg bytesOf _ e5]
     rfl
-  · show ((((s3.push w k).setErr w).finish t sid false).sentRev.get w).reverse = _
-    rw [fsr]
-    show ((s3.push w k).sentRev.get w).reverse = _
-    simp only [St.push, AMap.get_set_self, b3, St.sent, List.reverse_append, List.reverse_reverse]
-    rfl
+  · show (((s3.push w k).setErr w).finish t sid false).sent w = _
+    rw [finish_sent]
+    show (s3.push w k).sent w = _
+    rw [push_sent_self, b3]; rfl
   · show (((s3.push w k).setErr w).finish t sid false).err.get w = true
     rw [finish_err]
     show ((s3.push w k).err.set w true).get w = true
@@ -349,11 +354,10 @@ theorem flush_fault_at {s : St} {t sid w k : Nat} (ht : t ≠ 0) (hp : s.pc t = 
   · show (((s3.push w k).setErr w).finish t sid false).nsid = _
     rw [finish_nsid]; rfl
   · intro w' hne'
-    show ((((s3.push w k).setErr w).finish t sid false).sentRev.get w').reverse = _
-    rw [fsr]
-    show ((s3.push w k).sentRev.get w').reverse = _
-    rw [push_sentRev_ne s3 w k w' hne']
-    rfl
+    show (((s3.push w k).setErr w).finish t sid false).sent w' = _
+    rw [finish_sent]
+    show (s3.push w k).sent w' = _
+    rw [push_sent_ne s3 w k w' hne']; rfl
 
 /-! ### histories of whole calls with explicit fault points -/
 
